@@ -1037,6 +1037,17 @@ def str_method(world, o, name, args, kw, it, node):
             return o.format(*args, **kw)
         if name in ('format',):
             raise Unsupported('str.format')
+    if name == 'format' and isinstance(o, str) and not kw and \
+            '{{' not in o and '}}' not in o and \
+            o.count('{}') == len(args) == o.count('{') == o.count('}') and \
+            all(isinstance(a, (SStr, str)) for a in args):
+        # a literal template with plain `{}` fields and string arguments is
+        # the concatenation of its pieces
+        pieces = o.split('{}')
+        t = z3.StringVal(pieces[0])
+        for a, rest in zip(args, pieces[1:]):
+            t = z3.Concat(t, TStr.unwrap(a), z3.StringVal(rest))
+        return SStr(z3.simplify(t))
     if name == 'format':
         # message formatting: an opaque string of template and arguments
         world.trusted_used.add('str.format (uninterpreted)')
